@@ -80,9 +80,19 @@ def _indep_chunk(chunk, prop):
         for side in ("copy", "source"):
             for op in ops.enum_ops(spec, ("add", "move", "remove", "data", "sort", "meta")):
                 w = ops.World(spec)
+                # every source node carries metadata before the copy is taken: whether a copy inherits it is
+                # not specified, but it must never *share* the dict with its source
+                for i_, n_ in enumerate(w.nodes):
+                    n_.set_meta("m", i_)
+                    w.mnodes[i_].meta = {"m": i_}
                 try:
                     cp = w.tree.copy()
                 except Exception:  # noqa: BLE001  (reported by _copy_chunk)
+                    continue
+                src_objs = {id(n_._meta) for n_ in w.nodes if n_._meta is not None} | {id(n_._children) for n_ in [w.tree._root] + w.nodes if n_._children is not None}
+                shared = [c_ for c_ in [cp._root] + view.reachable(cp) if (c_._meta is not None and id(c_._meta) in src_objs) or (c_._children is not None and id(c_._children) in src_objs)]
+                if shared:
+                    res.violations.append(Violation(prop, "ensures the copy shares no mutable node state (meta dict, child list) with the source", "Tree.copy", {"kind": "indep", "spec": mut._spec_json(spec), "side": side, "op": mut._op_json(op)}, clip(f"copy node {shared[0]!r} shares a dict/list object with the source")))
                     continue
                 if side == "copy":
                     # run the op on the copy: rebuild a World whose real tree is the copy
